@@ -1,7 +1,6 @@
 package common
 
 import (
-	"encoding/hex"
 	"errors"
 
 	"github.com/MixinNetwork/mixin/crypto"
@@ -23,11 +22,6 @@ func ZZStub_VersionedTransaction_PayloadHash(ver *VersionedTransaction) crypto.H
 		vr.Assume(ver.hash.HasValue())
 	}
 	return ver.hash
-}
-
-// Address text is an injective rendering of the two public keys.
-func ZZStub_Address_String(a Address) string {
-	return "XIN" + hex.EncodeToString(a.PublicSpendKey[:]) + hex.EncodeToString(a.PublicViewKey[:])
 }
 
 // Custodian extra parsing is decided by C34; here it is an arbitrary (request | error).
